@@ -21,6 +21,7 @@ from collada import polygons
 from collada import primitive
 from collada.common import DaeObject, E, tag
 from collada.common import DaeIncompleteError, DaeUnsupportedError
+from collada.util import _syncChildren
 
 
 class Geometry(DaeObject):
@@ -224,24 +225,15 @@ class Geometry(DaeObject):
     def save(self):
         """Saves the geometry back to :attr:`xmlnode`"""
         meshnode = self.xmlnode.find(tag('mesh'))
-        for src in self.sourceById.values():
-            if isinstance(src, source.Source):
-                src.save()
-                if src.xmlnode not in meshnode:
-                    meshnode.insert(0, src.xmlnode)
-
-        deletenodes = []
-        for oldsrcnode in meshnode.findall(tag('source')):
-            if oldsrcnode not in [src.xmlnode
-                                  for src in self.sourceById.values()
-                                  if isinstance(src, source.Source)]:
-                deletenodes.append(oldsrcnode)
-        for d in deletenodes:
-            meshnode.remove(d)
+        vnode = meshnode.find(tag('vertices'))
+        sources = [src for src in self.sourceById.values()
+                   if isinstance(src, source.Source)]
+        for src in sources:
+            src.save()
+        _syncChildren(meshnode, [src.xmlnode for src in sources],
+                      lambda child: child.tag == tag('source'), before=vnode)
 
         # Look through primitives to find a vertex source
-        vnode = self.xmlnode.find(tag('mesh')).find(tag('vertices'))
-
         # delete any inputs in vertices tag that no longer exist and find the vertex input
         delete_inputs = []
         for input_node in vnode.findall(tag('input')):
@@ -268,9 +260,13 @@ class Geometry(DaeObject):
                 new_source = vert_ref
             else:
                 new_source = vert_sources[0]
-            self.sourceById[new_source + '-vertices'] = self.sourceById[new_source]
             input_vnode.set('source', '#' + new_source)
             vnode.set('id', new_source + '-vertices')
+
+        # sets loaded from strips or fans are written as plain triangles
+        for prim in self.primitives:
+            if isinstance(prim, triangleset.TriangleSet) and prim.xmlnode.tag != tag('triangles'):
+                prim._recreateXmlNode()
 
         # any source references in primitives that are pointing to the
         # same source that the vertices tag is pointing to to instead
@@ -286,19 +282,9 @@ class Geometry(DaeObject):
         self.xmlnode.set('id', self.id)
         self.xmlnode.set('name', self.name)
 
-        for prim in self.primitives:
-            if isinstance(prim, triangleset.TriangleSet) and prim.xmlnode.tag != tag('triangles'):
-                prim._recreateXmlNode()
-            if prim.xmlnode not in meshnode:
-                meshnode.append(prim.xmlnode)
-
-        deletenodes = []
-        primnodes = [prim.xmlnode for prim in self.primitives]
-        for child in meshnode:
-            if child.tag != tag('vertices') and child.tag != tag('source') and child not in primnodes:
-                deletenodes.append(child)
-        for d in deletenodes:
-            meshnode.remove(d)
+        _syncChildren(meshnode, [prim.xmlnode for prim in self.primitives],
+                      lambda child: child.tag not in (tag('source'), tag('vertices'), tag('extra')),
+                      before=meshnode.find(tag('extra')))
 
     def bind(self, matrix, materialnodebysymbol):
         """Binds this geometry to a transform matrix and material mapping.
